@@ -79,6 +79,18 @@ pub fn catalogue(kit: &c18::Kit, nonce: &str) -> Vec<Repo> {
             globs: vec!["**".into()],
             list_only: true,
         },
+        {
+            let p = "# <block name=\"shared\">\np = 1\n# </block>\n".to_string();
+            let q = "# <block name=\"shared\">\nq = 1\n# </block>\n# <block name=\"only-q\">\nq = 2\n# </block>\n".to_string();
+            let r = "# <block name=\"r1\" affects=\"p.py:shared\">\nr = 1\n# </block>\n# <block name=\"r2\" affects=\"q.py:shared, p.py:only-q, :shared\">\nr = 2\n# </block>\n".to_string();
+            Repo {
+                name: "R7-same-name-in-two-files",
+                files: vec![("p.py".into(), p.clone()), ("q.py".into(), q.clone()), ("r.py".into(), r.clone())],
+                diff_sections: Some(diff_of(&[("p.py", &p), ("q.py", &q), ("r.py", &r)])),
+                globs: vec![],
+                list_only: false,
+            }
+        },
         Repo {
             name: "R6-one-malformed-rule-among-violations",
             files: vec![("x.py".into(), rules_file("1")), ("d/y.py".into(), format!("{}# <block line-count=\"many\">\nx = 1\n# </block>\n", rules_file("2"))), ("z.md".into(), md)],
@@ -260,13 +272,13 @@ pub fn run(cfg: &Cfg, sink: &Arc<Sink>) -> Report {
         std::env::set_var("BLOCKWATCH_AI_API_URL", &FakeAi::global().url);
         std::env::set_var("BLOCKWATCH_AI_API_KEY", "k");
     }
-    let mut report = Report::new("for each repository of a catalogue (6 repositories of 3–4 files: rules with mixed severities, cross-file affects in diff mode with 3 diff sections, diff + glob, Lua + AI + sync rules, `list` with diff, one malformed rule among violations) every combination of block-map iteration order × file discovery order × order of the diff's file sections is taken, and for each every schedule of the seams (validator thread bodies, async delivery orders) is executed (E2); the canonical observable (status + sorted diagnostics / listed blocks / error) must be one single value per repository; through the real CLI every directory of each repository is used as cwd (exhaustive) and fresh processes with 1 and 16 runtime workers are repeated (sampling supplement: per-process hash seeds and thread timing are not enumerable); non-trivial = every combination");
+    let mut report = Report::new("for each repository of a catalogue (7 repositories of 3–4 files: same block name modified in two files with references to each, rules with mixed severities, cross-file affects in diff mode with 3 diff sections, diff + glob, Lua + AI + sync rules, `list` with diff, one malformed rule among violations) every combination of block-map iteration order × file discovery order × order of the diff's file sections is taken, and for each every schedule of the seams (validator thread bodies, async delivery orders) is executed (E2); the canonical observable (status + sorted diagnostics / listed blocks / error) must be one single value per repository; through the real CLI every directory of each repository is used as cwd (exhaustive) and fresh processes with 1 and 16 runtime workers are repeated (sampling supplement: per-process hash seeds and thread timing are not enumerable); non-trivial = every combination");
     report.assume("hash maps other than the block map are only looked up or iterated into order-insensitive outputs; the fresh-process repetitions are a labelled sampling pass for them");
-    let reference = Arc::new(Mutex::new(vec![None; 6]));
+    let reference = Arc::new(Mutex::new(vec![None; 7]));
     let schedules = Arc::new(AtomicU64::new(0));
     let thorough = cfg.tier == Tier::Thorough;
     let mut cases = Vec::new();
-    let sizes: [(usize, usize); 6] = [(4, 0), (3, 3), (4, 2), (3, 0), (3, 2), (3, 0)];
+    let sizes: [(usize, usize); 7] = [(4, 0), (3, 3), (4, 2), (3, 0), (3, 2), (3, 3), (3, 0)];
     for (repo, (files, sections)) in sizes.iter().enumerate() {
         let file_perms = permutations(*files).len();
         let diff_perms = permutations(*sections).len().max(1);
@@ -288,7 +300,7 @@ pub fn run(cfg: &Cfg, sink: &Arc<Sink>) -> Report {
     let (r2, s2) = (Arc::clone(&reference), Arc::clone(&schedules));
     report.phase(engine::explore(
         "map order × discovery order × diff-section order × all schedules (library)",
-        &format!("{n} order combinations over 6 repositories, {} for each", if thorough { "every schedule of the seams" } else { "every schedule with ≤3 deviations from the default order" }),
+        &format!("{n} order combinations over 7 repositories, {} for each", if thorough { "every schedule of the seams" } else { "every schedule with ≤3 deviations from the default order" }),
         Grid { cases, check: move |c: &Case, s: &Sink| check_case(c, bound, &r2, &s2, s) },
         sink,
         cfg.threads,
@@ -315,7 +327,7 @@ pub fn replay(cfg: &Cfg, input: &Value, sink: &Arc<Sink>) {
         return;
     }
     // Replaying one combination needs the reference of the identity combination first.
-    let reference = Mutex::new(vec![None; 6]);
+    let reference = Mutex::new(vec![None; 7]);
     let schedules = AtomicU64::new(0);
     let repo = input["repo"].as_u64().unwrap_or(0) as usize;
     check_case(&Case { repo, map_order: 0, walk_order: 0, diff_order: 0 }, None, &reference, &schedules, sink);
